@@ -22,6 +22,7 @@ CONSTANTS
  MsgB <- MC_MsgB
  Modes <- MC_Modes
  MaxCheaters <- MC_MaxCheaters
+ CoordPkps <- MC_CoordPkps
  EMIT <- MC_EMIT
 INIT Init
 NEXT Next
